@@ -9,6 +9,7 @@ gain selection) is evaluated on the implementation's own observations with exact
 import json, os, math, struct
 from fractions import Fraction
 import framework as F
+import cov_regions_util
 import floatbase
 
 PROP = "C19"
@@ -161,7 +162,7 @@ def pick_time(r):
     if k < 7:
         return f32b(r.choice(TIMES))
     if k < 9:
-        return f32b(to32(r.choice([0.25, 2.0, 3.0, 7.5, 44.1, 100.0, 441.0, 4410.0, 1e-3, 1e6, 1e-30])))
+        return f32b(to32(r.choice([0.25, 2.0, 3.0, 7.5, 44.1, 100.0, 441.0, 4410.0, 1e-3, 1e6, 1e-30, 1e-45, float('inf')])))
     return f32b(to32((r.below(100000) + 1) / 100.0))
 
 
@@ -650,7 +651,8 @@ def main(rep, tier, seed):
             "detector_constructor_histogram": ctor_hist,
             "steps_outside_exact_between_but_within_tolerance": stats.get("inexact_between", 0),
             "nonfinite_steps_skipped_by_verdict": stats.get("nonfinite", 0),
-            "floatbase_cases": fb_n, "floatbase_disagreements": len(fb_bad)}
+            "floatbase_cases": fb_n, "floatbase_disagreements": len(fb_bad),
+            "source_regions_never_entered": cov_regions_util.regions_for_evidence(PROP, "No exclusions (lib/props/c19_cov_exclusions.json is empty).")}
     samples = [it["line"][:400] for it in (rect[:1] + rect[len(rect) // 2:len(rect) // 2 + 1] + env[:1] + env[-1:])]
     n_eval = rect_evals + stats.get("steps", 0)
     return finish(rep, info, n_eval, len(nontriv), dist, samples, bad, len(items))
